@@ -432,8 +432,9 @@ def run(ctx, rep: Report, deep: bool = False):
                     f.write(b)
             size = sum(len(b) for b in files.values())
             mp = os.path.join(d, main)
-            # cue/CDDA inputs: the model side of the cue parser is tied on garbled sheets by C17; `akai all` has no CDDA branch
-            tie = ctx.model_available and spec["family"] != "cdda" and spec.get("prefix") != "cue" and (spec["id"] % (1 if spec["family"] != "roland" else 2) == 0)
+            # kilobyte-long cue lines are left to the oracle (the model's character-list regex matchers are slow on them)
+            long_cue = spec["family"] == "cdda" and spec.get("n", 0) > 100  # also: names beyond the file-system limit fail with OSError in the real tool only
+            tie = ctx.model_available and not long_cue and (spec["id"] % (1 if spec["family"] != "roland" else 2) == 0)
             meta[spec["id"]] = dict(spec=spec, size=size, dir=d, main=mp, tie=tie)
             pool.submit(spec["id"], (lambda mp=mp, d=d, tie=tie: tool_run(mp, d, tie)), cpu_bound(size), mem_bound(size), 4 * cpu_bound(size) + 20)
         results = pool.drain()
